@@ -176,3 +176,15 @@ Definition pp_client_blind := client_blind KF.
 Definition pp_client_finalize := client_finalize KF.
 Definition pp_client_verify := client_verify KF.
 Definition pp_hash_to_group := hash_to_group KF.
+
+Definition anchor_ggm (k0 k1 s0 s1 : bytes) (ops : list gop) : list bytes :=
+  let '(g, rs) := ggm_run k0 k1 (ginit bytes s0 s1) ops in
+  map (fun r : gres => match r with (Some v, _) => v | (None, Some _) => [1%N] | (None, None) => [0%N] end) rs
+  ++ flat_map (fun ps => [map (fun b : bool => if b then 1%N else 0%N) (fst ps); snd ps]) (gPrefixes bytes g).
+
+Definition anchor_star_scn (m e : bytes) (t : N) (rnd : option bytes) (clients : list (option bytes * fp)) (sel : list nat) : list bytes :=
+  let rnd := match rnd with Some r => r | None => sample_local KF m e t end in
+  match star_scenario m e t rnd clients sel with
+  | Ok (Some r) => srWire r ++ [match srRec r with Ok x => x | _ => [] end; srKey r]
+  | _ => []
+  end.
